@@ -59,6 +59,7 @@ def run(ctx):
     if not xok:
         ctx.violation("extraction cross-check failed", {"log": xlog}, no_input=True)
     failing = []
+    extras = []
     distinct = set()
     samples = []
     cert_cases, cert_meta = [], []
@@ -82,16 +83,32 @@ def run(ctx):
         refset = set(trees)
         extra = [t for t in ftrees if refparse.shape_of_sx(t) not in refset]
         if extra:
+            # a tree of the forest that is not among the reference derivations: either it is not a
+            # derivation of the input at all (C01's subject, not C02's) or the reference is incomplete
             st["extra_cases"] += 1
-            ctx.violation("forest holds a tree the reference enumerator does not produce",
-                          {"grammar": r["gtext"], "options": r["opts"], "input": c["input"],
-                           "tree": extra[0]}, no_input=True, key="extra")
+            extras.append((r, c, extra[0]))
         if miss:
             st["missing_cases"] += 1
             failing.append((ri, r, c, miss))
             for t in miss:
                 cert_cases.append((5, [r["grammar"], refparse.shape_to_sx(t)]))
                 cert_meta.append((r, c, t))
+    # an extra tree that IS a derivation of the input would mean the reference missed it
+    for (r, c, t), ok in zip(extras, common.model_run([(5, [r["grammar"], t]) for (r, c, t) in extras])):
+        w = c["input"]
+        leaves = refparse.leaves_of_shape(refparse.shape_of_sx(t))
+        sk = glrcases.sk_ws(w)
+        pos, chain = sk(0), True
+        for (y, s_, e_) in leaves:
+            if s_ != pos or c["rx"][y][s_] != e_ - s_:
+                chain = False
+            pos = sk(e_)
+        if ok == 1 and chain and pos == len(w):
+            ctx.violation("forest holds a valid derivation the reference enumerator does not produce",
+                          {"grammar": r["gtext"], "options": r["opts"], "input": w, "tree": t},
+                          no_input=True, key="extra")
+        else:
+            st["invalid_trees_left_to_C01"] = st.get("invalid_trees_left_to_C01", 0) + 1
     # certify every missing derivation with the verified checker
     certs = common.model_run(cert_cases)
     bad_cert = set()
